@@ -75,6 +75,30 @@ chk('C06',
     COMMON_NOTE, 'bounded-exhaustive enumeration of hierarchical groupings x resolver driving histories; differential + step invariants',
     'DESIGN.md section 4 C06')
 
+chk('C09',
+    'The valence invariant (R-valence hydrogens on every non-hydrogen atom within the usual valence, every hydrogen of degree 1 carrying its anchor\'s fragid, fragname '
+    'and weight) is evaluated on every all-atom result of three exhaustive explorations: base graph x fragment library with ambiguous / surplus descriptors, charged atoms, '
+    'explicit annotated hydrogens and single-hydrogen fragments; the C01 cut / rendering leaves of the feature molecules (aromatic units split across fragments); and the '
+    'complete RNG choice trees of the all-atom sampler configurations.',
+    COMMON_NOTE, 'valence invariant on every result of bounded-exhaustive input enumeration and exhaustive sampler choice-tree exploration',
+    'DESIGN.md section 4 C09')
+chk('C16',
+    'Stateless exhaustive exploration of the sampler\'s RNG choice tree: cgsmiles.sample.random is replaced by a controlled chooser and for 12 (quick) / 14 configurations '
+    '(1-4 fragments, mixed descriptor kinds / labels / orders, reactivity tables with zeros and conditional tables, terminal sets, fixed / free start, coarse and all-atom) and '
+    'target weights forcing 1-5 growth steps every answer sequence with non-zero weight is executed on the real sample(); every returned molecule is judged (connected tree of '
+    'template copies, complementary descriptors of equal order, none used twice, canonical numbering, valence). Plus all ordered pairs of paths on ONE sampler object (history) '
+    'and conformance of the chooser against the real RNG for recorded seeds. Each path is executed twice (first 200 per tree in quick) and must reproduce.',
+    COMMON_NOTE + ' The sampler is assumed to draw only through stdlib random (checked: growth without a choice point is a harness error).',
+    'stateless exhaustive choice-tree exploration of owned RNG nondeterminism on the real sampler (replay-based DFS) + history pairs',
+    'DESIGN.md section 4 C16')
+chk('C17',
+    'Per path of the C16 choice trees: added mass reaches the target and not without the last fragment, element-derived masses equal the reference masses, every weight vector '
+    'handed to the RNG follows a reactivity table (zero exactly where the table is zero), chosen site / partner have non-zero reactivity, terminal rules on the final descriptor '
+    'lists. Plus breadth-first exploration of construct-and-sample histories (depth <= 3-4 over construct+sample units, foreign RNG draws, other samplers) with the real RNG against '
+    'fresh-process references computed under 4-6 PYTHONHASHSEED values.',
+    COMMON_NOTE, 'exhaustive RNG choice-tree exploration + explicit-state history exploration with fresh-process references',
+    'DESIGN.md section 4 C17')
+
 NOT_YET = {}
 
 def main():
